@@ -91,6 +91,24 @@ let eval (fields : string list) : string =
           let name, email =
             match im.im_headers.h_author with Some (a, b) -> (Some a, Some b) | None -> (None, None) in
           String.concat " " [ "ok"; hv name; hv email; hex_of_bytes im.im_message; hex_of_bytes im.im_diff ])
+  | "recreate" -> (
+      (* recreate <header> <hex bytes> <config> *)
+      let h = match nth fields 1 with
+        | "none" -> HAbsent | "utf8" -> HUtf8 | "latin1" -> HLatin1 | "w1252" -> HW1252
+        | "unknown" -> HUnknown | _ -> raise Bad_request in
+      let c = match nth fields 3 with
+        | "none" -> CfgNone | "utf8" -> CfgUtf8 | "latin1" -> CfgLatin1 | "w1252" -> CfgW1252
+        | _ -> raise Bad_request in
+      let hs = function HAbsent -> "none" | HUtf8 -> "utf8" | HLatin1 -> "latin1" | HW1252 -> "w1252"
+                      | HUnknown -> "unknown" in
+      let bytes = bytes_of_hex (nth fields 2) in
+      match recreate h bytes c with
+      | None -> "err"
+      | Some (h', out) ->
+          let txt = match git_text h' out with
+            | None -> "_"
+            | Some t -> String.concat "," (List.map (fun x -> string_of_int (int_of_n x)) t) in
+          String.concat " " [ "ok"; hs h'; hv (Some out); txt ])
   | _ -> raise Bad_request
 
 let () =
